@@ -12,4 +12,4 @@ Relevant code: {', '.join(p['anchors']['files'])}.
 
 Task: produce ONE realistic change to the mosn source (a plausible refactor/optimisation/bugfix-gone-wrong a developer might make) that BREAKS this property while the project still compiles (`go build ./...`) and the existing tests of the touched packages still pass (`go test -vet=off -count=1 {pkgs}`; first run them WITHOUT your change to see which tests already fail - ignore those). The breakage should need something specific to manifest - a particular interleaving, a fault at a particular point, a multi-step sequence of operations, an unusual input or boundary value, or two cooperating sites that each look fine alone - not something ordinary use would expose at once. Focus: {hint}
 
-Deliver in {wt}/_seed/ : (1) patch.diff (`git diff` of your source change only, no test files), (2) a demonstration: a Go test file demo_test.go (state in a header comment which package directory it must be copied into) or small program that FAILS with your change and PASSES without it (verify both, e.g. with `git stash`), (3) meta.json {{"property":"{pid}","summary":"...","needs":"what specific condition is needed to manifest","ran":["commands you ran and their outcomes"]}}. Leave the worktree with your change applied (and the demo NOT copied into the package). Keep your final answer short: the summary and the file list.""")
+Deliver in {wt}/_seed/ : (1) patch.diff (`git diff` of your source change only, no test files), (2) a demonstration: a Go test file demo_test.go (state in a header comment which package directory it must be copied into) or small program that FAILS with your change and PASSES without it (verify both; NEVER use `git stash` - the stash is shared by all worktrees of this repository and other people are using it: use `git diff > /tmp/<your-unique-name>.diff; git apply -R /tmp/<...>.diff; <run>; git apply /tmp/<...>.diff` instead), (3) meta.json {{"property":"{pid}","summary":"...","needs":"what specific condition is needed to manifest","ran":["commands you ran and their outcomes"]}}. Leave the worktree with your change applied (and the demo NOT copied into the package). Keep your final answer short: the summary and the file list.""")
